@@ -975,7 +975,15 @@ func cmdBSI(args []string) {
 			}
 			return true
 		}
-		if !bulk && *prof != "query" && r.Intn(5) == 0 {
+		counter := !bulk && *prof != "query" && e.k == 0 && r.Intn(4) == 0
+		if counter {
+			// a counter index: Increment is the first mutating call on a fresh index, several times over
+			x := 1 + r.Intn(3)
+			for i, n := 0, 1+r.Intn(4); i < n; i++ {
+				e.run(BCall{Op: "BIncrement", X: x, Cols: subset()})
+			}
+		}
+		if !counter && !bulk && *prof != "query" && r.Intn(5) == 0 {
 			// ParOr of three indexes on pairwise disjoint columns, then updates of the operands: the result must keep its map
 			perm := r.Perm(e.nc)
 			owner := map[int][]int{}
@@ -1068,6 +1076,8 @@ func cmdBSI(args []string) {
 							}
 							sort.Ints(all)
 							e.run(BCall{Op: "BIncrement", X: x, Cols: &all, All: true})
+						} else if r.Intn(2) == 0 {
+							e.run(BCall{Op: "BIncrement", X: x, Cols: subset()}) // also columns that hold nothing yet (they count as 0)
 						} else {
 							e.run(BCall{Op: "BIncrement", X: x, Cols: existing(x)})
 						}
